@@ -445,7 +445,8 @@ def corr_generalized_contact(rng, cases, n_models, stats):
     if mi % 2 == 0:
       shape, size, dens = rand_body(rng)
       quat = modelgen.rand_unit_quat(rng)
-      depth = float(rng.uniform(-0.01, 0.02))
+      # alternately penetrating (2-20 mm) and hovering (1-30 mm above the ground: rows must be inactive)
+      depth = float(rng.uniform(0.002, 0.02)) if mi % 4 == 0 else -float(rng.uniform(0.001, 0.03))
       z = lowest_point(shape, size, quat_to_mat(quat)) - depth
       xml = body_scene(shape, size, dens, z, quat=quat)
       tag = f'body:{shape}'
@@ -689,13 +690,13 @@ def corr_spring_positional(rng, cases, n_models, stats, spec_failures):
   from brax.spring import pipeline as SP
   leaf = {'1': sjoints._one_dof, '2': sjoints._two_dof, '3': sjoints._three_dof}
   for mi in range(n_models):
-    xml, meta = modelgen.gen_model(rng, limits=(0.8 if mi != 1 else 0.0), roots='mixed', n_links=(2, 5),
+    xml, meta = modelgen.gen_model(rng, limits=(0.8 if mi != 2 else 0.0), roots='mixed', n_links=(2, 5),
                                    orthogonal=(mi % 2 == 0), damping=0.5)
     sysm = mjcf.loads(xml)
     types = meta['link_types']
     n, nv = sysm.num_links(), sysm.qd_size()
     stats['sp_models'].append(types + ('' if sysm.dof.limit is not None else ':nolimit'))
-    inside = mi % 3 != 2
+    inside = mi % 2 == 0        # odd models: coordinates beyond their ranges (limit terms active)
     q, qd = state_inside(rng, sysm) if inside else modelgen.rand_state(rng, sysm, q_range=2.8)
     sst = jax.jit(lambda q, qd: SP.init(sysm, q, qd))(jp.asarray(q), jp.asarray(qd))
     pst = jax.jit(lambda q, qd: PP.init(sysm, q, qd))(jp.asarray(q), jp.asarray(qd))
@@ -967,7 +968,7 @@ def three_hinge_xml(rng):
   return '\n'.join(out)
 
 
-def check_push_case(shape, size, density, quat, depth, gravity, name):
+def check_push_case(shape, size, density, quat, depth, gravity, name, vz0=0.0):
   """clause (c) on one input: a body at rest `depth` inside the ground, one step, against the same body with
   collisions disabled: the contact only pushes — the difference of the centre-of-mass velocity and position along
   the ground normal (+z) is >= 0"""
@@ -976,10 +977,12 @@ def check_push_case(shape, size, density, quat, depth, gravity, name):
   z = lowest_point(shape, size, quat_to_mat(quat)) - depth
   xml = body_scene(shape, size, density, z, quat=quat, gravity=gravity)
   base = dict(clause='push', pipeline=name, shape=shape, size=list(map(float, size)), density=float(density),
-              quat=list(map(float, quat)), depth=float(depth), gravity=float(gravity), xml=xml)
+              quat=list(map(float, quat)), depth=float(depth), gravity=float(gravity), vz0=float(vz0), xml=xml)
   sa, sb = mjcf.loads(xml), mjcf.loads(no_collide(xml))
   pa, pb = Pipe(sa, name), Pipe(sb, name)
-  q, qd, act = sa.init_q, jp.zeros(sa.qd_size()), jp.zeros(sa.act_size())
+  # vz0 = 0: at rest (the property's quantifier); vz0 > 0: already moving out of the ground (the contact must not
+  # hold it back: "never pulled in")
+  q, qd, act = sa.init_q, jp.zeros(sa.qd_size()).at[2].set(vz0), jp.zeros(sa.act_size())
   a0 = pa.init(q, qd)
   d0 = float(pa.min_dist(a0.x))
   a1, b1 = pa.step(a0, act), pb.step(pb.init(q, qd), act)
@@ -997,7 +1000,7 @@ def check_push_case(shape, size, density, quat, depth, gravity, name):
   # `positional_velocity_after_push` in the statistics, see notes/C06.md)
   vel_claim = name != 'positional'
   if (vel_claim and dv < -TOL) or dz < -TOL:
-    return dict(base, key=f'push:{name}:pulled', what=f'{name}: a {shape} at rest {depth * 1e3:.1f} mm inside the ground is PULLED IN by the '
+    return dict(base, key=f'push:{name}:pulled', what=f'{name}: a {shape} {"at rest" if vz0 == 0 else f"moving out at {vz0:.2f} m/s"} {depth * 1e3:.1f} mm inside the ground is PULLED IN by the '
                 f'contact: compared with the collision-free step its normal velocity changes by {dv:.3e} m/s and its height by {dz:.3e} m'), info
   return None, info
 
@@ -1115,11 +1118,25 @@ def run_separated(repo, seed, n_pairs, n_states, hist, budget_s):
   for mi in range(n_pairs):
     if time.time() - t0 > budget_s:
       break
-    xml, meta = modelgen.gen_model(rng, collide=True, ground=True, limits=0.3, actuators=(0, 2), n_links=(1, 4))
+    near = mi == 0
+    if near:
+      # a body hovering 2-30 mm above the ground: collision geometry that ALMOST touches
+      shape, size, dens = rand_body(rng)
+      quat = modelgen.rand_unit_quat(rng)
+      gap = float(rng.uniform(0.002, 0.03))
+      xml = body_scene(shape, size, dens, lowest_point(shape, size, quat_to_mat(quat)) + gap, quat=quat)
+      types = f'hovering {shape} gap {gap * 1e3:.1f}mm'
+    else:
+      xml, meta = modelgen.gen_model(rng, collide=True, ground=True, limits=0.3, actuators=(0, 2), n_links=(1, 4))
+      types = meta['link_types']
     sysm = mjcf.loads(xml)
-    st['models'].append(meta['link_types'])
+    st['models'].append(types)
     for si in range(n_states):
       q, qd = modelgen.rand_state(rng, sysm, q_range=1.0)
+      if near:
+        q = A(sysm.init_q).copy()
+        qd[2] = abs(qd[2]) * 0.2      # not towards the ground
+        qd[3:] *= 0.2
       act = rng.uniform(-1, 1, size=sysm.act_size())
       for name in PIPELINES:
         base = dict(clause='separated', pipeline=name, xml=xml, q=q.tolist(), qd=qd.tolist(), act=act.tolist(), hist=hist)
@@ -1189,10 +1206,11 @@ def run_push(repo, seed, n_bodies, budget_s):
     quat = modelgen.rand_unit_quat(rng)
     depth = float(rng.uniform(0.002, 0.02))
     st['shapes'][shape] = st['shapes'].get(shape, 0) + 1
-    for g in (-9.81, 0.0):
+    for g, vz0 in ((-9.81, 0.0), (0.0, 0.0), (-9.81, float(rng.uniform(0.2, 1.0)))):
       for name in PIPELINES:
-        base = dict(clause='push', pipeline=name, shape=shape, size=size, density=dens, quat=list(map(float, quat)), depth=depth, gravity=g)
-        f, info = _guard(lambda: check_push_case(shape, size, dens, quat, depth, g, name), f'push:{name}', base)
+        base = dict(clause='push', pipeline=name, shape=shape, size=size, density=dens, quat=list(map(float, quat)), depth=depth,
+                    gravity=g, vz0=vz0)
+        f, info = _guard(lambda: check_push_case(shape, size, dens, quat, depth, g, name, vz0), f'push:{name}', base)
         st['cases'] += 1
         st['pushed'] += int(info.get('pushed', False))
         st['min_dz'] = min(st['min_dz'], info.get('dz', np.inf))
@@ -1308,7 +1326,7 @@ def correspond(ctx):
   spec_failures = []
   try:
     corr_jac_limit(rng, cases, ctx.budget(3, 20), stats)
-    corr_generalized_contact(rng, cases, ctx.budget(2, 14), stats)
+    corr_generalized_contact(rng, cases, ctx.budget(3, 14), stats)
     corr_spring_positional(rng, cases, ctx.budget(2, 12), stats, spec_failures)
     dis = cases.run()
   except BaseException:
@@ -1374,7 +1392,8 @@ def replay(ctx, rp):
     elif cl == 'limit' and 'link' not in rp:
       f, info = check_limit_case(rp['xml'], np.array(rp['q']), np.array(rp['qd']), np.array(rp['act']), name)
     elif cl == 'push':
-      f, info = check_push_case(rp['shape'], rp['size'], rp['density'], np.array(rp['quat']), rp['depth'], rp['gravity'], name)
+      f, info = check_push_case(rp['shape'], rp['size'], rp['density'], np.array(rp['quat']), rp['depth'], rp['gravity'], name,
+                                rp.get('vz0', 0.0))
     elif cl == 'rest':
       f, info = check_rest_case(rp['shape'], rp['size'], rp['density'], rp['h'], name, rp['seconds'])
     elif cl == 'rebound':
